@@ -29,14 +29,24 @@ PRELUDE = r"""
 """
 
 
-def run_cases(d, exprs, prelude_extra="", timeout=600, extra_env=None, chunk=2000, imports=""):
+def run_cases(d, exprs, prelude_extra="", timeout=600, extra_env=None, chunk=2000, imports="",
+              max_dead=None):
     """exprs: list of Scheme expression strings.  Returns list of result strings (same order):
     the written value(s), 'ERR <message>' for a Scheme error, 'CRASH <rc> <stderr tail>' when the
-    process died on that case, 'TIMEOUT' when it hung."""
+    process died on that case, 'TIMEOUT' when it hung.  max_dead (or env VERIF_MAX_DEAD): after that
+    many TIMEOUT cases the remaining ones are not run and reported as 'SKIPPED' (a deliberately
+    broken build can hang on hundreds of cases, each costing a full timeout)."""
     res = [None] * len(exprs)
     os.makedirs(B.SCRATCH, exist_ok=True)
+    if max_dead is None and os.environ.get("VERIF_MAX_DEAD"):
+        max_dead = int(os.environ["VERIF_MAX_DEAD"])
+    dead = [0]
 
     def run_range(lo, hi):
+        if max_dead is not None and dead[0] >= max_dead:
+            for i in range(lo, hi):
+                res[i] = "SKIPPED"
+            return
         body = [PRELUDE, imports, prelude_extra]
         for i in range(lo, hi):
             body.append("(verif-case %d %s)" % (i, exprs[i]))
@@ -71,6 +81,8 @@ def run_cases(d, exprs, prelude_extra="", timeout=600, extra_env=None, chunk=200
             bad = last + 1
             # the case after the last completed one killed the process
             if bad < hi:
+                if rc == "TIMEOUT":
+                    dead[0] += 1
                 res[bad] = ("TIMEOUT" if rc == "TIMEOUT" else "CRASH rc=%s %s" % (rc, (err or "")[-300:].replace("\n", " | ")))
                 if bad + 1 < hi:
                     run_range(bad + 1, hi)
